@@ -263,7 +263,10 @@ theorem arraySplit_axis_err {α} (a : Arr α) (zero : α) (parts ax : Nat) (h : 
 
 theorem split_zero {α} (a : Arr α) (zero : α) (axis : Option Nat) : ∃ e, a.split zero 0 axis = .err e := by
   cases axis with
-  | none => exact ⟨.ParameterError, by simp [Arr.split]⟩
+  | none =>
+    by_cases h : 0 ≥ a.ndim
+    · exact ⟨.AxisOutOfBounds, by simp [Arr.split, h]⟩
+    · exact ⟨.ParameterError, by simp [Arr.split, h]⟩
   | some ax =>
     by_cases h : ax ≥ a.ndim
     · exact ⟨.AxisOutOfBounds, by simp [Arr.split, h]⟩
